@@ -584,7 +584,7 @@ def int_dtype_case(classes, h_int, s, y, idxs, report):
             return
 
 
-def partly_active_coords(x, active):
+def partly_active_coords(x, active, lam=None):
     """CartesianCoordinates whose `active_indexes` is `active` (a proper subset of the coordinates plus, like
     DICWithConstraints' Lagrange multipliers, indexes >= len(x) which active_mol_indexes must drop)."""
     from autode.opt.coordinates import CartesianCoordinates
@@ -593,8 +593,27 @@ def partly_active_coords(x, active):
         @property
         def active_indexes(self):
             return list(self._verif_active)
+
+        @property
+        def g(self):
+            # like DICWithConstraints.g: the PUBLIC gradient is the Lagrangian one (length n + m, -lambda_i on the
+            # constrained coordinates, dL/dlambda at the end); the energy gradient the update needs is `_g`
+            if self._g is None:
+                return None
+            n, lam = len(self), np.asarray(self._verif_lambda, dtype=float)
+            arr = np.zeros(n + len(lam))
+            arr[:n] = self._g
+            for i in range(len(lam)):
+                arr[n - len(lam) + i] -= lam[i]
+                arr[n + i] = 0.125 * (i + 1)
+            return arr
+
+        @g.setter
+        def g(self, value):
+            raise RuntimeError("Cannot set gradient with constraints enabled")
     c = PartlyActive(x)
     c._verif_active = None if active is None else list(active)
+    c._verif_lambda = [] if lam is None else list(lam)
     if active is None:
         c = CartesianCoordinates(x)
     return c
@@ -616,14 +635,24 @@ def first_applicable_case(ctx, rng, classes, n, report, fixed=None):
                 s[0] = 0.5
         active = None
         if n >= 2 and rng.random() < 0.5:      # proper subset + multiplier-like indexes beyond the molecule
-            active = sorted(rng.sample(range(n), rng.randint(1, n - 1))) + [n + k for k in range(rng.randint(0, 2))]
+            m = rng.randint(0, 2)
+            active = sorted(rng.sample(range(n), rng.randint(1, n - 1))) + [n + k for k in range(m)]
+            if m and rng.random() < 0.7 and (n - 1) not in active:
+                active = sorted(active[:len(active) - m] + [n - 1]) + active[len(active) - m:]   # an unsatisfied constraint
+            if len([i for i in active if i < n]) == n:
+                active.remove(0)
+        lams = None
+        if active is not None:
+            m = len([i for i in active if i >= n])
+            lams = [[rand_k8(rng, 1, 8) for _ in range(m)], [rand_k8(rng, -8, -1) for _ in range(m)]]   # multipliers change
     else:
         h, x0, s, y, g0 = (np.array(fixed[k], dtype=float) for k in ("h", "x0", "s", "y", "g0"))
-        names, active = fixed["names"], fixed.get("active")
+        names, active, lams = fixed["names"], fixed.get("active"), fixed.get("lams")
     data = {"kind": "first-applicable", "h": h.tolist(), "x0": x0.tolist(), "s": s.tolist(), "y": y.tolist(),
-            "g0": g0.tolist(), "names": names, "active": active}
+            "g0": g0.tolist(), "names": names, "active": active, "lams": lams}
     idxs = list(range(n)) if active is None else [i for i in active if i < n]
-    old, new = partly_active_coords(x0, active), partly_active_coords(x0 + s, active)
+    old = partly_active_coords(x0, active, None if lams is None else lams[0])
+    new = partly_active_coords(x0 + s, active, None if lams is None else lams[1])
     old._h, old._g, new._g = h.copy(), g0.copy(), g0 + y
     conds = []
     for nm in names:
@@ -659,6 +688,13 @@ def first_applicable_case(ctx, rng, classes, n, report, fixed=None):
         if finite(exp) and (got.shape != exp.shape or not np.allclose(got, exp, rtol=1e-12, atol=1e-12)):
             report("first-applicable", f"update_h_from_old_h({names}) did not return the update of the first applicable updater "
                                        f"{names[want]} restricted to {where}", data)
+        if finite(exp) and got.shape == exp.shape and names[want] in ("BFGSUpdate", "BFGSPDUpdate", "SR1Update") \
+                and np.all(np.isfinite(got)):
+            sa, ya, blk = s[idxs], y[idxs], got[np.ix_(idxs, idxs)]
+            res_ = float(np.linalg.norm(blk @ sa - ya))
+            if res_ > 1e-8 * (float(np.linalg.norm(blk)) * float(np.linalg.norm(sa)) + float(np.linalg.norm(ya)) + 1e-300):
+                report("first-applicable-secant", f"update_h_from_old_h({names}): the stored Hessian does not reproduce the ENERGY-gradient "
+                                                  f"change on {where}: |H' s - y| = {res_:.3e} (y = g_new - g_old of `_g`)", data)
         if finite(exp) and got.shape == exp.shape and len(idxs) < n:
             mask = np.ones((n, n), dtype=bool)
             mask[np.ix_(idxs, idxs)] = False
